@@ -9,22 +9,21 @@ from .responses import PlainTextResponse, Response
 def decode_path(path: str) -> str:
     """
     PATH_INFO holds the bytes of the request path decoded as Latin-1 (PEP 3333);
-    the path itself is UTF-8. Text that is not UTF-8 is left as it is.
+    the path itself is UTF-8. Bytes that are not UTF-8 are kept as lone surrogates,
+    so they match nothing written as text and `encode_path` restores them.
     """
     try:
-        return path.encode("latin-1").decode("utf-8")
-    except UnicodeError:
+        raw = path.encode("latin-1")
+    except UnicodeEncodeError:  # not a native string at all: leave it alone
         return path
+    return raw.decode("utf-8", "surrogateescape")
 
 
 def encode_path(path: str) -> str:
     """
     The inverse of `decode_path`: text to the native string WSGI expects.
     """
-    try:
-        return path.encode("utf-8").decode("latin-1")
-    except UnicodeError:  # pragma: no cover
-        return path
+    return path.encode("utf-8", "surrogateescape").decode("latin-1")
 
 
 class Router(BaseRouter[WSGIApp]):
